@@ -228,7 +228,7 @@ func itoaSigned(n int) string {
 
 func init() {
 	intParams := []int{-8, -7, -6, -5, -4, -3, -2, -1, 0, 1, 2, 3, 4, 5, 6, 7, 8}
-	fracParams := []string{"(-1.5)", "0.5", "2.5"}
+	fracParams := []string{"(-1.5)", "0.5", "2.5", "(-0.5)", "(-4.25)", "(-2.5)", "1.9"}
 	padUnits := []string{"x", "é", "😀"}
 	sepUnits := c16Sigma
 	sizes := func(max int) []int {
@@ -435,9 +435,34 @@ func init() {
 				fn := c.Choose(4)
 				c.Done()
 				doc := map[string]interface{}{"s": s, "c": ","}
-				prog := []string{"$substring(s, " + p + ")", "$substring(s, 0, " + p + ")", "$pad(s, " + p + ")", "$split(s, c, 2.5)"}[fn]
-				got := c16Expect(x, prog, doc, nil, false, false) // totality only
-				x.Outcome(got.Short())
+				// a fractional parameter counts as its integer part (the conversion to the function's integer
+				// parameter drops the fraction, as the reference implementation's string indexing does): every
+				// call must agree with the same call on the integer part
+				f, _ := strconv.ParseFloat(strings.Trim(p, "()"), 64)
+				t := itoaSigned(int(f))
+				if int(f) < 0 {
+					t = "(" + t + ")"
+				}
+				forms := [][2]string{
+					{"$substring(s, " + p + ")", "$substring(s, " + t + ")"},
+					{"$substring(s, 0, " + p + ")", "$substring(s, 0, " + t + ")"},
+					{"$pad(s, " + p + ")", "$pad(s, " + t + ")"},
+					{"$split(s, c, 2.5)", "$split(s, c, 2)"},
+				}
+				o1 := impl.Run(forms[fn][0], doc)
+				o2 := impl.Run(forms[fn][1], doc)
+				x.Eval()
+				x.Eval()
+				x.Validated()
+				same := o1.Kind == o2.Kind && o1.Class == o2.Class && (o1.Kind != impl.Value || impl.Equal(o1.Val, o2.Val))
+				if !same {
+					x.Violation("value", "value:"+forms[fn][0]+"|"+jsonText(doc), explore.Detail{Program: forms[fn][0], Input: jsonText(doc),
+						Expected: "the outcome of " + forms[fn][1] + ": " + o2.String(), Observed: o1.String()})
+				}
+				if o1.Kind == impl.Value {
+					x.Nontrivial()
+				}
+				x.Outcome(o1.Short())
 			}},
 		},
 	})
